@@ -201,6 +201,33 @@ def check_class(name, cls, tier, rng, extra=None, event_time=None):
             r = float(np.max(np.abs(res))) / max(1.0, float(np.max(np.abs(rhs_c))))
             if not r <= tol:
                 fails.append(f'solve_system(factor={factor}, t={t}): relative defect {r:.2e} > {tol:.1e}')
+    # history: consecutive solves on the SAME problem object whose factors differ only slightly (anything kept from the previous solve -- a
+    # factorisation, a preconditioner, an initial guess -- must not leak into the next one)
+    for base in (1e-6, 1e-1) if tier == 'quick' else (1e-6, 1e-3, 1e-1, 1.0):
+        for factor in (base, base * 1.009, base * (1 + 1e-7), base + 1e-9, base):
+            cases += 1
+            t = 0.3 if event_time is None else 0.5 * event_time
+            us = P.dtype_u(P.u_exact(0.0))
+            us[...] = (0.7 + 0.1 * rng.rand()) * ref_state(P, t) + 0.3 * ref_state(P, t + 0.05)
+            try:
+                fs = P.eval_f(us, t)
+                rhs = P.dtype_u(us)
+                rhs[...] = us - factor * np.asarray(impl_part(fs))
+                guess = P.dtype_u(P.u_exact(0.0))
+                guess[...] = ref_state(P, t)
+                rhs_c = np.array(rhs)
+                wc = getattr(P, 'work_counters', {}).get('newton')
+                n_before = wc.niter if wc is not None else 0
+                sol = P.solve_system(rhs, factor, guess, t)
+                if wc is not None and getattr(P, 'newton_maxiter', None) is not None and wc.niter - n_before >= P.newton_maxiter:
+                    continue
+                fsol = P.eval_f(sol, t)
+                res = np.asarray(sol) - factor * np.asarray(impl_part(fsol)) - rhs_c
+                r = float(np.max(np.abs(res))) / max(1.0, float(np.max(np.abs(rhs_c))))
+                if not r <= tol:
+                    fails.append(f'solve_system(factor={factor!r}) right after a solve with a nearly equal factor: relative defect {r:.2e} > {tol:.1e}')
+            except Exception as e:
+                fails.append(f'solve_system(factor={factor!r}) in a sequence of nearly equal factors raised {type(e).__name__}: {str(e)[:60]}')
     # closed-form solution satisfies the ODE (only for problems whose u_exact is analytic: small finite difference test)
     if name in ('testequation0d', 'test_equation_IMEX', 'logistics_equation', 'nonlinear_ODE_1', 'auzinger', 'ProtheroRobinson', 'Kaps', 'JacobiElliptic', 'ProtheroRobinsonAutonomous', 'ChemicalReaction3Var'):
         try:
@@ -277,6 +304,11 @@ def variants(name, cls):
             out.append((f'{pn}={d + 1}', dict(extra={pn: d + 1})))  # integer-valued parameters stay integers (exponents)
     if len(out) > 4:
         out = out[:4]
+    # a domain that is NOT symmetric about the origin (the defaults all are): solver and right-hand side must agree on where the boundary is
+    iv = sig.parameters.get('interval')
+    if iv is not None and isinstance(iv.default, tuple) and len(iv.default) == 2 and all(isinstance(v, (int, float)) for v in iv.default) and 'interval' not in PARAMS.get(name, {}):
+        a, b = float(iv.default[0]), float(iv.default[1])
+        out.append((f'interval=({a + 0.3 * (b - a):g},{b + 0.3 * (b - a):g})', dict(extra=dict(interval=(a + 0.3 * (b - a), b + 0.3 * (b - a))))))
     if name in ('heatNd_unforced', 'heatNd_forced', 'advectionNd'):
         # the solver types, boundary conditions, dimensions and stencil variants the finite-difference base class offers
         out = out[:2]
@@ -414,10 +446,11 @@ def check_spectral(name, cls, rng):
     return fails, cases, None
 
 
-def bounded_problem_contracts(tier, seed):
+def bounded_problem_contracts(tier, seed, part=0, nparts=1):
     warnings.filterwarnings('ignore')
-    rng = np.random.RandomState(seed + 21)
+    rng = np.random.RandomState(seed + 21 + 1000 * part)
     found, failed_imports = discover()
+    found = found[part::nparts]  # the classes are spread over `nparts` jobs of the pool
     obs, uncovered, total = [], [], 0
     nvariants = [0]
     spectral_done = []
@@ -492,18 +525,30 @@ def bounded_problem_contracts(tier, seed):
         for kind, bad in kinds.items():
             obs.append(dict(name=f'bounded:{name}:{kind}', status='proved' if not bad else 'refuted', backend='runtime-contract', seconds=0.0, kind='bounded', size=0,
                             model=dict(first=bad[:5]) if bad else None, reason='', path=0, counted=False))
-    sp, c2 = split_siblings(rng)
-    total += c2
-    obs.append(dict(name='bounded:split_siblings_sum_to_the_unsplit_rhs', status='proved' if not sp else 'refuted', backend='runtime-contract', seconds=0.0, kind='bounded', size=0,
-                    model=dict(first=sp[:5]) if sp else None, reason='', path=0, counted=False))
+    if part == 0:
+        sp, c2 = split_siblings(rng)
+        total += c2
+        obs.append(dict(name='bounded:split_siblings_sum_to_the_unsplit_rhs', status='proved' if not sp else 'refuted', backend='runtime-contract', seconds=0.0, kind='bounded', size=0,
+                        model=dict(first=sp[:5]) if sp else None, reason='', path=0, counted=False))
     return dict(contract='bounded:problem_classes', prop='C12', inst={}, label='bounded', kind='bounded', obligations=obs, canaries=[], paths=1, status='ok',
                 bounded=dict(what='solver contract (defect of the returned solution, arguments untouched, fresh results), eval_f contract, split siblings, closed-form solutions',
-                             bound=f'{(len(obs) - 1) // 3} classes (+ {nvariants[0]} variants with one non-default float parameter or a set event time) x factors incl. 0 x 2 times, random admissible states (seeded)', cases=total, failures=sum(1 for o in obs if o['status'] != 'proved'),
-                             covered=sorted(set(o['name'].split(':')[1] for o in obs[:-1])), spectral_classes_with_the_tau_contract=spectral_done, uncovered=uncovered, not_importable=[f'{a}: {b}' for a, b in failed_imports]))
+                             bound=f'part {part + 1} of {nparts}: {len(found)} classes (+ {nvariants[0]} variants with one non-default float parameter or a set event time) x factors incl. 0 x 2 times, random admissible states (seeded)', cases=total, failures=sum(1 for o in obs if o['status'] != 'proved'),
+                             covered=sorted(set(o['name'].split(':')[1] for o in obs if o['name'].count(':') >= 2)), spectral_classes_with_the_tau_contract=spectral_done, uncovered=uncovered, not_importable=[f'{a}: {b}' for a, b in failed_imports]))
+
+
+NPARTS = 8
+
+
+def _part(i):
+    def f(tier, seed):
+        return bounded_problem_contracts(tier, seed, part=i, nparts=NPARTS)
+
+    f.__name__ = f'bounded_problem_contracts_part{i}'
+    return f
 
 
 CONTRACTS = []
-EXTRAS = [bounded_problem_contracts]
+EXTRAS = [_part(i) for i in range(NPARTS)]
 LEVEL = 'exploration'
 ASSUMPTIONS = ['scipy / numpy solvers are external', 'this property is decided by a bounded run-time contract only: nothing is counted as proved']
 UNDECIDED = ['classes needing cupy, mpi4py, petsc4py, dolfin, firedrake are not importable here', 'boundary / constraint rows are not treated separately (classes under check enforce them inside the operator)']
@@ -565,5 +610,5 @@ def dahlquist_symbolic(tier, seed):
                 target=('pySDC/implementations/problem_classes/TestEquation_0D.py', 'testequation0d.solve_system'))
 
 
-EXTRAS = [bounded_problem_contracts, dahlquist_symbolic]
+EXTRAS = [_part(i) for i in range(NPARTS)] + [dahlquist_symbolic]
 LEVEL = 'proof'
